@@ -5,7 +5,6 @@ package c19
 // both judged by the independent envelope reading of json_test.go.
 
 import (
-	"bytes"
 	"encoding/json"
 	"errors"
 	"fmt"
@@ -144,7 +143,20 @@ func envOfMsg(msg jsonrpc.Message) (env, error) {
 		case int64:
 			e.HasID, e.IDNum = true, strconv.FormatInt(v, 10)
 		default:
-			return fmt.Errorf("ID.Raw() has type %T", v)
+			// Another in-memory representation (Raw is only "the underlying value"): read it through its JSON form;
+			// a representation that cannot hold the exact value shows up as a different token.
+			b, err := json.Marshal(v)
+			if err != nil {
+				return fmt.Errorf("ID.Raw() has type %T", v)
+			}
+			switch t, _ := parseAny(b); t := t.(type) {
+			case string:
+				e.HasID, e.IDIsString, e.IDStr = true, true, t
+			case json.Number:
+				e.HasID, e.IDNum = true, string(t)
+			default:
+				return fmt.Errorf("ID.Raw() has type %T", v)
+			}
 		}
 		return nil
 	}
@@ -295,7 +307,8 @@ func runMsg(s MsgScript) (res vt.Result) {
 		res.Failf("re-encoding the decoded message failed: %v", err)
 		return
 	}
-	if !bytes.Equal(b1, b2) {
+	// a fixpoint in the message, not necessarily in the bytes (the encoder may spell a value differently)
+	if got3, err := readEnv(b2); err != nil || diffEnv(want, got3) != "" {
 		res.Failf("encode->decode->encode is not a fixpoint:\n first : %s\n second: %s", b1, b2)
 	}
 	return
@@ -558,6 +571,12 @@ func runWire(s WireScript) (res vt.Result) {
 	}
 	got, err := envOfMsg(msg)
 	if err != nil {
+		return
+	}
+	if s.CaseKey == "jsonrpc" && s.CaseMode == "replace" {
+		// A decoder that does not insist on the version member reads the same message because the member is
+		// optional for it, not because it matches names loosely (the decoy variants still tell).
+		res.Class("case:jsonrpc-absent")
 		return
 	}
 	if diffEnv(want, got) == "" {
